@@ -1,6 +1,6 @@
 import A2Verif.Lemmas.FsDosPutC
 /-!
-# `put`, part D: `write_file` for a file that fits one T/S list
+# `put`, part D: `write_file`, any number of T/S lists
 
 Chunk matching, the loop invariant at the start of the loop, the evaluation of `writeFile` and the refinement
 theorem `putM_refines` (all refusals included; a catalog-full refusal keeps the reserved sector marked, which the
@@ -22,10 +22,13 @@ end A2Verif.FsDos
 namespace A2Verif.Fs.Dos3x
 open A2Verif.FsDos A2Verif.Read.Dos3x
 
-/-- scope of the proved `put` refinement: the file fits one T/S list, no chunk is longer than a sector -/
-structure PutOneList (f : FImg) : Prop where
-  hend : f.endIdx ≤ 122
-  hlen : ∀ k d, f.chunks.lookup k = some d → d.length ≤ 256
+/-- the only condition on a file image in the `put` refinement: no chunk is longer than the chunk length the image
+declares (256, checked by `put`).  a2kit does not check it: `write_sector` silently drops what exceeds the sector, so
+an accepted `put` of a longer chunk does **not** read back (see `design/FsDos.md`). -/
+def ChunksFit (f : FImg) : Prop := ∀ k d, f.chunks.lookup k = some d → d.length ≤ 256
+
+/-- sectors a file image needs: one per stored chunk and one T/S list per 122 chunk indices -/
+def sectorsNeeded (f : FImg) : Nat := f.chunks.length + (1 + (f.endIdx - 1) / 122)
 
 /-! ## chunk matching -/
 
@@ -91,15 +94,6 @@ theorem endIdx_pos {f : FImg} (h : f.chunks.length ≠ 0) : 0 < f.endIdx := by
     simp only [List.foldl_cons]
     have := foldl_max_ge l (max 0 (a.1 + 1))
     omega
-
-theorem getD_zeros' (n i : Nat) : (zeros n).getD i 0 = 0 := by
-  unfold zeros
-  rw [getD_eq]
-  by_cases h : i < n
-  · rw [List.getElem?_replicate, if_pos h]; rfl
-  · rw [List.getElem?_eq_none (by rw [List.length_replicate]; omega)]; rfl
-
-theorem zeros_length' (n : Nat) : (zeros n).length = n := List.length_replicate
 
 
 /-! ## the catalog sector `put` writes -/
@@ -171,72 +165,22 @@ theorem slotIn_congr {r r' : Raw} {c : Nat} : ∀ {cat : List Nat}, (∀ u ∈ c
     simp only [slotIn]
     rw [h u List.mem_cons_self, ih (fun x hx => h x (List.mem_cons_of_mem _ hx))]
 
-theorem allocM_apply {w : W} (h : WOk w) {t s : Nat} (ht : t < 35) (hs : s < w.c) :
-    allocM t s w = (.ok (), w.withV (alloc' w.v w.c t s)) := by
-  unfold allocM M.modV
-  simp only [allocate_eq' h.vok ht hs]
-  rfl
-
-
-/-- what the reader finds in the T/S list the loop has built -/
-theorem final_chunks {K : PCtx} (hk : PCtxOk K) {st : LoopSt} {wf : W} (hli : LI K K.endIdx st wf) :
-    (hereOf wf.img K.c st.tsl 0).map (fun x => (x.1, x.2.1)) =
-      (List.range K.endIdx).filterMap (fun k => (K.chunks.lookup k).map (fun d => (k, quantize d))) := by
-  unfold hereOf
-  rw [List.map_filterMap]
-  have hsplit : List.range 122 = List.range K.endIdx ++ List.range' K.endIdx (122 - K.endIdx) := by
-    rw [List.range_eq_range', List.range_eq_range']
-    have h1 := List.range'_append_1 (s := 0) (m := K.endIdx) (n := 122 - K.endIdx)
-    rw [Nat.zero_add] at h1
-    rw [h1]
-    have : K.endIdx + (122 - K.endIdx) = 122 := by have := hk.hend; omega
-    rw [this]
-  rw [hsplit, List.filterMap_append]
-  have h2 : List.filterMap (fun k => Option.map (fun x : Nat × Bytes × Nat => (x.1, x.2.1))
-      (if pairT st.tsl k = 0 then none else some (0 + k, sec wf.img (pairT st.tsl k * K.c + pairS st.tsl k), pairT st.tsl k * K.c + pairS st.tsl k)))
-      (List.range' K.endIdx (122 - K.endIdx)) = [] := by
-    rw [List.filterMap_eq_nil_iff]
-    intro k hk'
-    rw [List.mem_range'] at hk'
-    obtain ⟨i, hi, rfl⟩ := hk'
-    rw [hli.hole (K.endIdx + 1 * i) (by omega) (Or.inl (by omega))]
-    simp
-  rw [h2, List.append_nil]
-  apply filterMap_congr'
-  intro k hk'
-  have hke := List.mem_range.1 hk'
-  cases hl : K.chunks.lookup k with
-  | none =>
-    rw [hli.hole k (by have := hk.hend; omega) (Or.inr hl)]
-    simp
-  | some d =>
-    obtain ⟨h0, _, _, hs⟩ := hli.pres k d hke hl
-    unfold PCtx.unit at hs
-    simp only [h0, if_false, Option.map_some, Nat.zero_add, hs]
-
-
-theorem loop_all' {K : PCtx} (hk : PCtxOk K) {mp : Nat} (hmp : mp = 122) {st : LoopSt} {w : W} (hli : LI K 0 st w) :
-    ∃ st' w', putLoop K.chunks mp K.endIdx (List.range K.endIdx) st w = (.ok (), w') ∧ LI K K.endIdx st' w' := by
-  subst hmp
-  rw [List.range_eq_range']
-  exact loop_all hk K.endIdx 0 st w (by omega) (Nat.zero_le _) hli
-
-/-- the successful `write_file` of a file that fits one T/S list -/
-theorem writeFile_ok {w : W} {sb : List Nat} {L : Lay} (hi : WInv w sb L) {f : FImg} (hone : PutOneList f)
+/-- the successful `write_file` -/
+theorem writeFile_ok {w : W} {sb : List Nat} {L : Lay} (hi : WInv w sb L) {f : FImg} (hfit : ChunksFit f)
     {fname : Bytes} (hfn : stringToFileName f.fullPath = .ok fname) (hfl : fname.length = 30) (hfb : ∀ x ∈ fname, 128 ≤ x ∧ x < 256)
     (hch : f.chunks.length ≠ 0) (hnone : findIn w.img w.c fname L.cat = none)
-    (hspace : f.chunks.length + 1 ≤ nfree w.v w.c)
+    (hspace : sectorsNeeded f ≤ nfree w.v w.c)
     {dt ds e : Nat} (hslot : slotIn w.img w.c L.cat = some (dt, ds, e))
     {ty : Nat} {tyr : Bytes} (hty : f.fsType = ty :: tyr) :
-    ∃ wf L', writeFile f w = (.ok (f.chunks.length + 1), wf) ∧ WInv wf sb L' ∧ wf.c = w.c ∧
+    ∃ wf L', writeFile f w = (.ok (sectorsNeeded f), wf) ∧ WInv wf sb L' ∧ wf.c = w.c ∧
       stepOk dosParams (volOf w.img w.c sb L) (.put (pathOfName fname) (putChunks f) 0 (ty % 128) 0) true
         (volOf wf.img w.c sb L') = true := by
   have hok := hi.ok
   have haok := winv_aok hi
   have hc0 : 0 < w.c := by rcases hok.hc with e | e <;> omega
   have hend0 := endIdx_pos hch
-  have htsl : 1 + (f.endIdx - 1) / Vtoc.maxPairs w.v = 1 := by
-    rw [hok.vPairs, Nat.div_eq_of_lt (by have := hone.hend; omega)]
+  have hmp : Vtoc.maxPairs w.v = 122 := hok.vPairs
+  unfold sectorsNeeded at hspace
   -- the lookups
   obtain ⟨o, hgts, hoi⟩ := getTslistSector_eval hi hfn
   have ho : o = none := hoi.2 hnone
@@ -301,6 +245,7 @@ theorem writeFile_ok {w : W} {sb : List Nat} {L : Lay} (hi : WInv w sb L) {f : F
   generalize hwD : (w.withV vA).wrote dt ds (newSector (sec w.img ud) e tt tsec ty fname cnt) vA = wD at hwr
   -- the loop
   let K : PCtx := PCtx.mk w.c w.img w.v (tt * w.c + tsec) tt tsec ud (newSector (sec w.img ud) e tt tsec ty fname cnt) f.chunks f.endIdx
+    0 ((f.endIdx - 1) / 122)
   have hvtU : isFreeU w.v w.c (vtocTrack * w.c) = false := by
     have h1 : vtocTrack * w.c ∈ (volOf w.img w.c sb L).sys := by simp [volOf, fixedOf, vt_eq]
     have := sys_not_free hi h1
@@ -309,7 +254,10 @@ theorem writeFile_ok {w : W} {sb : List Nat} {L : Lay} (hi : WInv w sb L) {f : F
     | true => exact absurd ⟨by unfold vtocTrack; omega, hb⟩ this
   have hudU : isFreeU w.v w.c ud = false := by
     rw [hue, isFreeU_unit hs']; exact cat_used hi ht' hs' (hue ▸ hud)
-  have hk : PCtxOk K := ⟨hok.hc, rfl, htt, htsec, hTfree, hudU, hvtU, hne17, hdl, hone.hend⟩
+  have hk : PCtxOk K := ⟨hok.hc, rfl, htt1, htt, htsec, hTfree, hudU, hvtU, hne17, hdl⟩
+  have hpre0 : Pre w tt tsec [] K := by
+    refine ⟨rfl, rfl, rfl, hudU, hvtU, by rw [← hok.size]; exact hult, ⟨rfl, rfl⟩, ?_⟩
+    exact ⟨by rw [W.img_size]; exact hok.size, rfl, List.nodup_nil, fun x hx => (by cases hx), Taken.refl hok.vok, fun _ _ _ _ => rfl⟩
   have hokD : WOk wD := by rw [← hwD]; exact wrote_ok' hokA ht' hs' hdl htkA.ok
   have hsecD : ∀ y, y ≠ vtocTrack * w.c → sec wD.img y = if y = ud then newSector (sec w.img ud) e tt tsec ty fname cnt else sec w.img y := by
     intro y hy
@@ -328,46 +276,48 @@ theorem writeFile_ok {w : W} {sb : List Nat} {L : Lay} (hi : WInv w sb L) {f : F
     · intro x x1 x2 x3 _
       rw [hsecD x x3, if_neg x2]
     · rw [hsecD ud hne17, if_pos rfl]
-    · show K.todo 0 ≤ nfree wD.v w.c
+    · show K.todo 0 + (f.endIdx - 1) / 122 ≤ nfree wD.v w.c
       have h1 := todo_le K
       have h2 := nfree_taken htk1 (unit_lt htt htsec) hTfree
       have h3 := nfree_taken_nil htk2
       have h4 : wD.v = vA := by rw [← hwD]; rfl
       have h5 : K.chunks.length = f.chunks.length := rfl
       rw [h4, h3]; omega
-  obtain ⟨stf, wf, hlp, hlif⟩ := loop_all' hk hok.vPairs hli0
+  obtain ⟨Df, Kf, pf, stf, wf, hlp, hkf, hpref, hlif, hsr, hbf, hpf, hposf⟩ :=
+    loop_all f.endIdx 0 [] K 0 _ wD (Nat.sub_zero _) rfl (Nat.zero_le _) (Or.inl (by decide)) (by decide) hk hpre0 hli0
+  have hbuilt := built_of hpref hkf hlif hpf (hposf (Or.inl hend0)) (by rw [hbf, hsr.endIdx])
+  rw [hsr.ud, hsr.dir3, hsr.chunks, hsr.endIdx] at hbuilt
+  rw [← List.range_eq_range'] at hlp
   -- the record
   obtain ⟨hn0, hn1, hn2, hn3⟩ := newSector_entry (b := sec w.img ud) (tt := tt) (tsec := tsec) (ty := ty) (fname := fname) (cnt := cnt) hbl he7 hfl hcl
   have hfresh := not_listed_of_findIn_none hi hfl hfb hnone
-  obtain ⟨T1, T2, F1, F2, hinv, hfiles, hvol, hown, hchunks, hwf', hgn, hgf, hfnd, hfree, hcp⟩ := put_entry hi hk rfl rfl rfl hlif hend0 hud he7 hdead
+  obtain ⟨T1, T2, F1, F2, hinv, hfiles, hvol, hchunks, hwf', hgn, hgf, hfnd, hfree, hcp⟩ := put_entry hi hbuilt hud he7 hdead
     (newSector_getD_out hbl he7 hfl hcl (Or.inl (by unfold entryOff; omega)))
     (newSector_getD_out hbl he7 hfl hcl (Or.inl (by unfold entryOff; omega)))
     (entsOfSec_update he7 (fun j hj hne => newSector_entry_other hbl he7 hfl hcl hj hne))
     hn0 hn1 (by rw [hn3]; exact hfb) (by rw [hn3]; exact hfresh) htt1
-  have hcf : wf.c = w.c := hlif.hc
+  have hcf : wf.c = w.c := hbuilt.hc
   refine ⟨wf, _, ?_, hinv, hcf, ?_⟩
   · unfold writeFile
     simp only [M.bind_apply, M.getV_apply, M.lift_apply, M.pure_apply, hch, if_false, hgts, hnum, hty, hfn]
-    have hcond : ¬ (f.chunks.length + (1 + (f.endIdx - 1) / Vtoc.maxPairs w.v) > nfree w.v w.c) := by rw [htsl]; omega
+    have hcond : ¬ (f.chunks.length + (1 + (f.endIdx - 1) / Vtoc.maxPairs w.v) > nfree w.v w.c) := by rw [hmp]; omega
     simp only [hcond, if_false, M.pure_apply, M.bind_apply, nextFreeM_apply, hnf, hal, hup, hsl, hrd, hfs, M.lift_apply]
     have hdir3 : splice (splice (splice (sec w.img ud) (entryOff e) [tt, tsec, ty]) (entryOff e + 3) fname) (entryOff e + 33)
         (u16le ((1 + (f.endIdx - 1) / Vtoc.maxPairs w.v + f.chunks.length) % 65536)) =
         newSector (sec w.img ud) e tt tsec ty fname cnt := by rw [hcnt]; rfl
-    have hlp' : putLoop f.chunks (Vtoc.maxPairs w.v) f.endIdx (List.range f.endIdx)
+    have hlp' : putLoop f.chunks 122 f.endIdx (List.range f.endIdx)
         { tsl := zeros 256, tt := tt, tsec := tsec, p := 0, secBase := 0 } wD = (.ok (), wf) := hlp
     simp only [hdir3]
-    simp only [hwr, hlp', htsl]
+    simp only [hwr, hmp]
+    simp only [hlp']
     rfl
   · rw [hvol]
-    have hp : (recOf wf.img w.c (entryAt (newSector (sec w.img ud) e tt tsec ty fname cnt) e) [tt * w.c + tsec]).path = pathOfName fname := by
+    have hp : (recOf wf.img w.c (entryAt (newSector (sec w.img ud) e tt tsec ty fname cnt) e) (Df ++ [Kf.uT])).path = pathOfName fname := by
       show pathOfName (slice _ 3 30) = _; rw [hn3]
     rw [← hp]
     apply stepOk_put_inserted hfiles hi.wf hgn hgf hfnd hfree (by rw [hp]; exact hfresh) hcp rfl
     · rw [hchunks]
-      have := final_chunks hk hlif
-      rw [show K.c = w.c from rfl] at this
-      rw [this]
-      exact chunksMatch_filterMap (fun k => f.chunks.lookup k) (List.range f.endIdx) hone.hlen
+      exact chunksMatch_filterMap (fun k => f.chunks.lookup k) (List.range f.endIdx) hfit
     · rfl
     · intro _
       show (entryAt (newSector (sec w.img ud) e tt tsec ty fname cnt) e).getD 2 0 % 128 = ty % 128
@@ -456,10 +406,10 @@ theorem writeFile_reserved_fail {w : W} {sb : List Nat} {L : Lay} (hi : WInv w s
       hup, hslE, hslot, hrd, hfs, hty, M.fail_apply]
 
 
-/-- **`put` refines the specification** for file images that fit one T/S list: accepted → exactly one record is
+/-- **`put` refines the specification** (any number of T/S lists, holes, short chunks): accepted → exactly one record is
 inserted, on previously free sectors, reading back the stored chunks; refused (empty image, name in use, not
 enough free sectors, catalog full, no type) → the files are untouched and the volume stays well formed -/
-theorem putM_refines {w : W} {sb : List Nat} {L : Lay} (hi : WInv w sb L) {f : FImg} (hone : PutOneList f)
+theorem putM_refines {w : W} {sb : List Nat} {L : Lay} (hi : WInv w sb L) {f : FImg} (hfit : ChunksFit f)
     {fname : Bytes} (hfn : stringToFileName f.fullPath = .ok fname) (hfl : fname.length = 30) (hfb : ∀ x ∈ fname, 128 ≤ x ∧ x < 256) :
     ∃ res w' L', writeFile f w = (res, w') ∧ WInv w' sb L' ∧ w'.c = w.c ∧
       stepOk dosParams (volOf w.img w.c sb L) (.put (pathOfName fname) (putChunks f) 0 (f.fsType.getD 0 0 % 128) 0) (isOk res)
@@ -499,21 +449,19 @@ theorem putM_refines {w : W} {sb : List Nat} {L : Lay} (hi : WInv w sb L) {f : F
               (.put (pathOfName fname) (putChunks f) 0 (([] : Bytes).getD 0 0 % 128) 0)
             exact ⟨_, w', L, he, hinv, hc, hs⟩
           | cons ty tyr =>
-            have htsl : 1 + (f.endIdx - 1) / Vtoc.maxPairs w.v = 1 := by
-              rw [hi.ok.vPairs, Nat.div_eq_of_lt (by have := hone.hend; have := endIdx_pos hch; omega)]
-            rw [htsl] at hsp
-            obtain ⟨wf, L', he, hinv, hc, hs⟩ := writeFile_ok hi hone hfn hfl hfb hch hf (by omega) hslot hty
+            rw [hi.ok.vPairs] at hsp
+            obtain ⟨wf, L', he, hinv, hc, hs⟩ := writeFile_ok hi hfit hfn hfl hfb hch hf (by unfold sectorsNeeded; omega) hslot hty
             exact ⟨_, wf, L', he, hinv, hc, by simpa using hs⟩
 
-/-- C04, acceptance clause for the concrete DOS model (files that fit one T/S list): a file image with at least
-one chunk, a type, a valid name not yet in the catalog, for which the catalog has a free entry and
-`chunks + 1` (data sectors + one T/S list) free sectors exist, **is accepted** — `write_file` returns
-`Ok(chunks + 1)`.  (a2kit answers DISK FULL both for lack of space and for a full catalog.) -/
-theorem writeFile_accepts {w : W} {sb : List Nat} {L : Lay} (hi : WInv w sb L) {f : FImg} (hone : PutOneList f)
+/-- C04, acceptance clause for the concrete DOS model: a file image with at least one chunk, a type, a valid name
+not yet in the catalog, for which the catalog has a free entry and `sectorsNeeded f` (data sectors + one T/S list
+per 122 chunk indices) free sectors exist, **is accepted** — `write_file` returns `Ok(sectorsNeeded f)`.
+(a2kit answers DISK FULL both for lack of space and for a full catalog.) -/
+theorem writeFile_accepts {w : W} {sb : List Nat} {L : Lay} (hi : WInv w sb L) {f : FImg} (hfit : ChunksFit f)
     (hv : isNameValid f.fullPath = true) (hch : f.chunks.length ≠ 0) (hty : f.fsType ≠ [])
     (hfresh : pathOf f.fullPath ∉ (volOf w.img w.c sb L).paths)
-    (hslot : (slotIn w.img w.c L.cat).isSome = true) (hspace : f.chunks.length + 1 ≤ nfree w.v w.c) :
-    (writeFile f w).1 = .ok (f.chunks.length + 1) := by
+    (hslot : (slotIn w.img w.c L.cat).isSome = true) (hspace : sectorsNeeded f ≤ nfree w.v w.c) :
+    (writeFile f w).1 = .ok (sectorsNeeded f) := by
   obtain ⟨fname, hfn, hfl, hfb⟩ := stringToFileName_ok hv
   have hp : pathOf f.fullPath = pathOfName fname := by unfold pathOf; rw [hfn]
   have hnone : findIn w.img w.c fname L.cat = none := by
@@ -538,7 +486,7 @@ theorem writeFile_accepts {w : W} {sb : List Nat} {L : Lay} (hi : WInv w sb L) {
     cases hty' : f.fsType with
     | nil => exact absurd hty' hty
     | cons ty tyr =>
-      obtain ⟨wf, L', he, _⟩ := writeFile_ok hi hone hfn hfl hfb hch hnone hspace hs hty'
+      obtain ⟨wf, L', he, _⟩ := writeFile_ok hi hfit hfn hfl hfb hch hnone hspace hs hty'
       rw [he]
 
 end A2Verif.Fs.Dos3x
